@@ -83,7 +83,7 @@ def gen_case(seed, profile=None):
     case = {"id": cid, "seed": seed, "world": {"spec": spec}, "sde": rng.choice(SDES), "steps": steps,
             "history_free": history_free,
             "info": {"n_fonts": info["n_fonts"], "has_ds": info["has_ds"],
-                     "lib_filters": info.get("lib_filters", [])}}
+                     "lib_filters": info.get("lib_filters", []), "lib_skip": info.get("lib_skip", False)}}
     return case, rng
 
 
@@ -104,6 +104,27 @@ def varfea_anchor_gap(case, step):
     if lib_active and any(n in ANCHOR_MOVING_LIB for n in case.get("info", {}).get("lib_filters", [])):
         return True
     return any(isinstance(d, dict) and d.get("cls") in ANCHOR_MOVING_CLS for d in (fl or []))
+
+
+COMPONENT_RESHAPING_LIB = ("flattencomponents", "flattencomponentsfilter")
+COMPONENT_RESHAPING_CLS = ("FlattenComponentsFilter", "FlattenComponentsIFilter", "SkipExportGlyphsFilter",
+                           "SkipExportGlyphsIFilter")
+
+
+def ttflags_gap(case, step):
+    """Precondition of the open finding KF-C08-ttflags-source-glyph: a TrueType
+    build in which a filter changes the number of components of a glyph that
+    stays composite (flattening, partial decomposition of non-export glyphs)."""
+    if step["op"] not in ops.TTF_FAMILY:
+        return False
+    o = step.get("opts", {})
+    if o.get("flattenComponents") or o.get("skipExportGlyphs") or case.get("info", {}).get("lib_skip"):
+        return True
+    fl = o.get("filters")
+    lib_active = fl is None or "..." in fl
+    if lib_active and any(n in COMPONENT_RESHAPING_LIB for n in case.get("info", {}).get("lib_filters", [])):
+        return True
+    return any(isinstance(d, dict) and d.get("cls") in COMPONENT_RESHAPING_CLS for d in (fl or []))
 
 
 def canonical_variant():
@@ -139,6 +160,7 @@ def gen_variant(rng, case, vid, inc, extents):
                                        "at": rng.randint(1, ext["calls"]),
                                        "gran": "call"}
     inplace = [i for i in range(n) if rng.random() < 0.15 and not varfea_anchor_gap(case, case["steps"][i])
+               and not ttflags_gap(case, case["steps"][i])
                and not case.get("history_free")]
     return {"vid": vid, "inc": inc, "mat": mat, "env": env, "fresh": fresh, "order": order,
             "repeat": repeat, "faulted": faulted, "inplace": inplace}
